@@ -1,6 +1,7 @@
 import Norad.Lemmas.NumWriters
 import Norad.Lemmas.RoundTrip
 import Norad.Lemmas.FontRT
+import Norad.Generated.RoundTrip
 import Mathlib.Data.List.Forall2
 /-!
 # C01 — saving a font and loading it back preserves all font data
@@ -392,5 +393,130 @@ example : ValidFont tokenLaws emptyFont where
   files := by intro l hl; simp [emptyFont] at hl; subst hl; rfl
   glyphsOK := by intro l hl g hg; simp [emptyFont] at hl; subst hl; cases hg
   restValid := rfl
+
+/-! ## source-level tie (DESIGN 11.8): what `tools/extract_roundtrip.py` read from the Rust of THIS run
+
+`Generated.RoundTrip` is regenerated from `src/glyph/serialize.rs`, `src/glyph/parse.rs`, `src/glyph/mod.rs`,
+`src/font.rs`, `src/layer.rs`, `src/fontinfo.rs`, `src/kerning.rs` before the build.  The writer omits a value
+under a gate; the reader assumes a value when it is absent; the two must be the same value. -/
+
+namespace Source
+open Generated.RoundTrip
+
+def readerDefault (e a : String) : Option String :=
+  (glifReaderDefaults.find? (fun r => r.elem == e && r.attr == a)).map (·.dflt)
+
+/-- an attribute that is always written needs no default; one that is omitted at `v` must be read as `v` -/
+def attrRowOk (w : WRow) : Bool :=
+  w.omitted == "-" || readerDefault w.elem w.attr == some w.omitted
+
+/-- the glyph fields an element fills, and which reader default (of `Glyph::new_impl`) an omitted element leaves -/
+def elementFields : String → List String
+  | "advance" => ["width", "height"]
+  | "image" => ["image"]
+  | "lib" => ["lib"]
+  | "note" => ["note"]
+  | "outline" => ["contours", "components"]
+  | "contour" => ["contours"]
+  | "component" => ["components"]
+  | "anchor" => ["anchors"]
+  | "guideline" => ["guidelines"]
+  | "unicode" => ["codepoints"]
+  | _ => ["?"]
+
+/-- gate of a whole element vs the default of the fields it fills (`neither-normal` vs `0`: the advance is
+    dropped for 0/0 — and for subnormal, infinite and NaN values, the recorded C02 finding) -/
+def elementGateOk (gate dflt : String) : Bool :=
+  (gate == "none" && dflt == "none") || (gate == "empty" && dflt == "empty") ||
+  (gate == "both-empty" && dflt == "empty") || (gate == "each" && dflt == "empty") ||
+  (gate == "neither-normal" && dflt == "0")
+
+def elementRowOk (r : String × String) : Bool :=
+  (elementFields r.1).all fun f => match readerDefault "glyph" f with
+    | some d => elementGateOk r.2 d
+    | none => false
+
+/-- an optional file / key: the condition under which it is not written vs what load gives without it -/
+def fileGateOk (gate read : String) : Bool :=
+  (gate == "empty" && read == "empty") || (gate == "none" && read == "none") ||
+  (gate == "color-none-and-lib-empty" && read == "none+empty")
+
+def fileRowOk (r : String × String) : Bool :=
+  match absentReads.find? (fun a => a.1 == r.1) with
+  | some a => fileGateOk r.2 a.2
+  | none => false
+
+/-- the optional parts this model gates, with the gate the model uses (`mkTree`, `saveLayerInfo`) -/
+def modelFileGates : List (String × String) :=
+  [("data", "empty"), ("features.fea", "empty"), ("fontinfo.plist", "empty"), ("groups.plist", "empty"),
+   ("images", "empty"), ("kerning.plist", "empty"), ("layerinfo.plist", "color-none-and-lib-empty"),
+   ("layerinfo.plist:color", "none"), ("layerinfo.plist:lib", "empty"), ("lib.plist", "empty")]
+
+/-- the three writers of the model: function under the test, comparison, threshold, bounds, what is cast
+    (`kernWrite`, `infoWrite`, `upmWrite`) -/
+def modelNumberWriters : List NRow :=
+  [⟨"kerning", "round", "lt", "f64::EPSILON", "ge i32::MIN", "le i32::MAX", "rounded"⟩,
+   ⟨"fontinfo", "fract", "le", "f64::EPSILON", "ge i32::MIN", "le i32::MAX", "raw"⟩,
+   ⟨"unitsPerEm", "fract", "lt", "f64::EPSILON", "-", "le i32::MAX", "raw"⟩]
+
+end Source
+
+open Generated.RoundTrip Source in
+/-- **every attribute the glif writer omits under a gate is omitted exactly at the value the glif parser
+    assumes when the attribute is absent** (smooth / false, type / offcurve, the six transform coefficients at
+    the identity, advance width and height / 0, every optional name, colour, identifier / none) -/
+theorem source_gates_match_defaults : glifWriter.all attrRowOk = true := by decide
+
+open Generated.RoundTrip Source in
+/-- every element the glif writer leaves out is left out exactly when the glyph field it fills has the value
+    `Glyph::new_impl` starts from -/
+theorem source_element_gates_match_defaults : glifElementGates.all elementRowOk = true := by decide
+
+open Generated.RoundTrip Source in
+/-- **every file (and layerinfo key) that is written only when non-empty reads back as the empty value when it
+    is absent**, and `FontInfo::is_empty` is equality with the default value the loader uses -/
+theorem source_absent_files_read_as_empty :
+    fileGates.all fileRowOk = true ∧ fontinfoEmptyIsDefault = true := by decide
+
+open Generated.RoundTrip Source in
+/-- the gates of the optional files in the source are the gates of the model (`mkTree`, `saveLayerInfo`) … -/
+theorem source_file_gates_match_model : fileGates = modelFileGates := by decide
+
+/-- … and these ARE the model's gates: nothing optional is written for the empty font, and what `loadFont`
+    returns for a tree without the optional files is the empty value of every part -/
+theorem model_file_gates (ol : Dict) :
+    (mkTree emptyFont []).fontinfo.isNone ∧ (mkTree emptyFont []).lib.isNone ∧ (mkTree emptyFont []).groups.isNone ∧
+    (mkTree emptyFont []).kerning.isNone ∧ (mkTree emptyFont []).features.isNone ∧
+    (mkTree { emptyFont with lib := [("k", PV.bool true)] } ol).lib.isSome ∧
+    (mkTree { emptyFont with groups := [("g", [])] } ol).groups.isSome ∧
+    (mkTree { emptyFont with kerning := [("a", [])] } ol).kerning.isSome ∧
+    (mkTree { emptyFont with features := ['x'] } ol).features.isSome ∧
+    (mkTree { emptyFont with info := { rest := some "r" } } ol).fontinfo.isSome ∧
+    (saveLayerInfo ({ name := "n", dir := "d" } : Layer tokenParts)).isNone ∧
+    (saveLayerInfo ({ name := "n", dir := "d", lib := [("k", PV.bool true)] } : Layer tokenParts)).isSome ∧
+    (saveLayerInfo ({ name := "n", dir := "d", color := some (ColV.milli 0 0 0 0) } : Layer tokenParts)).isSome := by
+  refine ⟨rfl, rfl, rfl, rfl, rfl, ?_, rfl, rfl, rfl, rfl, rfl, rfl, rfl⟩
+  simp [mkTree, emptyFont]
+  split <;> simp
+
+open Generated.RoundTrip Source in
+/-- **the constants and tests of the three int-or-float writers in the source are those of the model**:
+    `f64::EPSILON` = `eps`, the i32 bounds, strict / non-strict comparison, what is cast; the colour string has
+    as many decimals as the model's thousandths -/
+theorem source_number_writers_match_model :
+    numberWriters = modelNumberWriters ∧ eps = 1 / (epsilonDen : ℚ) ∧ RT.i32Max = Generated.RoundTrip.i32Max ∧
+    RT.i32Min = Generated.RoundTrip.i32Min ∧ 10 ^ colorDecimals = 1000 := by
+  refine ⟨by decide, ?_, rfl, rfl, by decide⟩
+  unfold eps epsilonDen; norm_num
+
+/-- the descriptor `modelNumberWriters` describes the model: strictness at distance exactly ε, the cast of the
+    rounded (kerning) or the raw truncated value (font info, unitsPerEm), the upper bound inclusive -/
+theorem model_number_writers :
+    kernWrite (1 - eps) = .real (1 - eps) ∧ kernWrite (1 - eps / 2) = .int 1 ∧
+    infoWrite (1 + eps) = .int 1 ∧ infoWrite (-1 - eps) = .int (-1) ∧ infoWrite (1 - eps / 2) = .real (1 - eps / 2) ∧
+    upmWrite (1 + eps) = .real (1 + eps) ∧ upmWrite (1 + eps / 2) = .int 1 ∧
+    kernWrite 2147483647 = .int 2147483647 ∧ kernWrite 2147483648 = .real 2147483648 ∧
+    infoWrite (-2147483648) = .int (-2147483648) ∧ upmWrite 2147483647 = .int 2147483647 := by
+  refine ⟨?_, ?_, ?_, ?_, ?_, ?_, ?_, ?_, ?_, ?_, ?_⟩ <;> decide +kernel
 
 end RT
